@@ -208,8 +208,8 @@ class C11(runner.Check):
              "is trigger(name), to_<state> exists iff auto transitions and ends in its state, get_triggers / "
              "get_transitions equal the events table, a model's own attributes are never replaced (with "
              "model_override only those are), an event cannot be named like the state attribute, helper names are "
-             "injective; the clauses that are false on the pinned tree carry a _partial theorem and a proved "
-             "counterexample. Tied to /repo by comparing, after every step of generated histories on the real "
+             "injective; all clauses are proved at full strength for the repaired code (fixes 78d98e1, 6de1ae6, b3feefd, "
+             "0b25ad6), the former witnesses are regression cases. Tied to /repo by comparing, after every step of generated histories on the real "
              "Machine / HierarchicalMachine, the model's snapshot with full introspection of every model, and judged "
              "on the implementation by an oracle that states the clauses directly (every is_* called, event method vs "
              "trigger and to_* on deep-copied twins, get_triggers against really firing every event from every state).",
